@@ -241,6 +241,9 @@ def gen_scenario(r: random.Random, task: Optional[str] = None, n_frames: Optiona
         for k_ in ("center_distance_thresholds", "plane_distance_thresholds", "iou_2d_thresholds", "iou_3d_thresholds"):
             cfg.pop(k_)
 
+    if tracks and r.random() < 0.12:
+        # evaluator-level uuid filter: only some ground-truth instances are evaluated
+        cfg["target_uuids"] = [t["key"] for t in r.sample(tracks, r.randint(1, len(tracks)))]
     if overrides:
         cfg.update(overrides)
     critical, passfail = [], []
@@ -253,6 +256,10 @@ def gen_scenario(r: random.Random, task: Optional[str] = None, n_frames: Optiona
             c["min_point_numbers"] = [r.choice([0, 1, 5]) for _ in crit_labels]
         if r.random() < 0.2:
             c["confidence_threshold_list"] = [round(r.uniform(0, 0.4), 2) for _ in crit_labels]
+        if tracks and r.random() < 0.1:
+            c["target_uuids"] = [t["key"] for t in r.sample(tracks, r.randint(1, len(tracks)))]
+        if r.random() < 0.1:
+            c["ignore_attributes"] = r.choice([["vehicle.parked"], ["cycle"], ["extra"]])
         critical.append(c)
         pf_labels = list(crit_labels) if r.random() < 0.6 else list(target)
         if "false_positive" not in pf_labels and r.random() < 0.3:
